@@ -72,4 +72,19 @@ CLAIMED = {
    note=("Trusted: Coq kernel, translator (constants), extraction, harness. The decoder model sits on the three-FIFO "
          "specification of ByteBuffer (C09 refinement). Frame.ReadFrom (unused by the stream) is not modelled."),
    technique="Coq refinement proof (decoder model = pure parser, induction over sessions, round-trip law); differential correspondence + extracted parser oracle"),
+ "C19": dict(
+   text=("Coq theorems (5, closed): the model of codec/frame Decode returns for EVERY unread byte string exactly the pure "
+         "parser's verdict (next payload / need more / overflow before any buffering), never panics, consumes exactly the "
+         "item; ReadNext/AsyncReadNext over a transport delivering the bytes in ANY segmentation (any chunking, would-block "
+         "mid-item, EOF, errors) delivers an item iff it is the next item of the byte stream and otherwise loses no byte "
+         "(induction over the transport's event queue); decode(encode(p)) = p and a whole payload sequence written back "
+         "to back decodes to the same sequence; WriteNext on a healthy transport puts exactly the encoded item on the wire "
+         "and leaves nothing behind. The model (codec + CodecConn + scripted transport) is compared with the real "
+         "CodecConn over an in-memory sonic.Stream after every call (every cut offset, per-read limits, sync/async, "
+         "hostile prefixes, partial-accept and failing transports for every failure offset, parked async writes), and "
+         "the extracted parser/encoder judges items, wire bytes and leftovers independently."),
+   note=("Trusted: Coq kernel, translator (HeaderLen, MaxPayloadLength), extraction, harness incl. the in-memory transport "
+         "(harness/drv/memstream.go, mirrored by Model/Transport.v). The model sits on the three-FIFO specification of "
+         "ByteBuffer (C09). Real sockets are covered by C02, not here."),
+   technique="Coq refinement proof (decoder = pure parser; induction over transport segmentations; round-trip law); differential correspondence + extracted oracle"),
 }
